@@ -41,15 +41,31 @@ func resultClass(t *Term) (int, bool) {
 	return 0, false
 }
 
-// findClosureLoop returns the key of the range loop whose operand is a
-// function literal (the merged base+delta iterator), and the instance it is in.
-func findClosureLoop(pg *PG) (key string, inst *Instance, lit *Term) {
+// findScanLoop returns the key of the range loop whose element's serial number
+// is compared (the entry scan), the instance it is in, and - when the loop
+// ranges over a function literal (the merged base+delta iterator) - that literal.
+func findScanLoop(pg *PG) (key string, inst *Instance, lit *Term) {
+	atoms := pg.AtomSet()
 	for _, s := range pg.States {
 		for _, e := range s.Out {
 			for _, l := range e.Labels {
-				if l.Kind == "rangenext" && l.T != nil && l.T.Op == "closure" {
+				if l.Kind != "rangenext" {
+					continue
+				}
+				hit := false
+				for _, a := range atoms {
+					if strings.Contains(a, "BEq(") && strings.Contains(a, "re("+l.Key+").SerialNumber") {
+						hit = true
+						break
+					}
+				}
+				if !hit {
+					continue
+				}
+				if l.T != nil && l.T.Op == "closure" {
 					return l.Key, l.Node.Inst, l.T
 				}
+				return l.Key, l.Node.Inst, nil
 			}
 		}
 	}
@@ -70,9 +86,9 @@ func checkC10(c *Check) {
 	if top == nil {
 		return
 	}
-	_, inst, _ := findClosureLoop(top)
+	_, inst, _ := findScanLoop(top)
 	if inst == nil {
-		c.undecided("O-C10", "entry scan", "no range-over-function loop found under "+crlRoot+" (the merged base/delta iteration)", "")
+		c.undecided("O-C10", "entry scan", "no loop comparing the serial number of its element found under "+crlRoot+" (the scan over the base and delta entries)", "")
 		return
 	}
 	scanFn := rootOfInst(inst)
@@ -84,7 +100,7 @@ func checkC10(c *Check) {
 	if pg == nil {
 		return
 	}
-	E, _, litTerm := findClosureLoop(pg)
+	E, _, litTerm := findScanLoop(pg)
 	if E == "" {
 		c.undecided("O-C10", "entry scan", "entry scan loop not found in "+scanFn.Name, "")
 		return
@@ -321,8 +337,12 @@ func checkC10(c *Check) {
 		{Name: "unknown critical extension on a matching entry", All: []LP{match, A("-OidEq([encoding/asn1.ObjectIdentifier: 2, 5, 29, 24], " + ext + ".Id)"), A("+Truth(" + ext + ".Critical)")}},
 	}, originName)
 
-	// O-C10.6 the iterator literal
-	checkIterator(c, pg, litTerm)
+	// O-C10.6 the entries scanned: the iterator literal, or the list built by the caller
+	if litTerm != nil {
+		checkIterator(c, pg, litTerm)
+	} else {
+		checkEntryList(c, top, rootOfInst(inst), pg, E)
+	}
 }
 
 func ptr(lp LP) *LP { return &lp }
@@ -379,4 +399,135 @@ func checkIterator(c *Check, pg *PG, lit *Term) {
 	anyYield := LP{Desc: "a yield call", F: func(l Label) bool { return l.Kind == "call" && strings.HasPrefix(l.Key, "dyn(p0, ") }}
 	c.noPathFrom(ipg, "O-C10.6", "iterator stops when told to", "after yield returned false no further entry is yielded", stop, edgeSources(ipg, anyYield), nil)
 	c.floor("iterator yield sites", 2, len(edgeSources(ipg, anyYield)))
+}
+
+// checkEntryList: the list form of O-C10.6. The scan ranges over a parameter;
+// its single caller builds the argument as a local list: every base entry,
+// then every delta entry if a delta exists, nothing else.
+func checkEntryList(c *Check, top *PG, scan *Instance, spg *PG, E string) {
+	where := c.P.pos(spg.G.Root.Decl.Pos())
+	idx := -1
+	for i := range spg.G.Params {
+		if E == fmt.Sprintf("p%d", i) {
+			idx = i
+		}
+	}
+	if idx < 0 {
+		c.undecided("O-C10.6", "entries scanned", "the scan ranges over "+E+", which is neither a function literal nor a parameter of "+scan.Name+": the list form is only understood when the caller builds the list", where)
+		return
+	}
+	// the single call of the scan under the root
+	calls := map[string]bool{}
+	for _, in := range top.G.Insts {
+		if in.Fn != nil && in.Fn == scan.Fn {
+			calls[c.P.pos(in.CallPos)] = true
+		}
+	}
+	c.add("O-C10.6", "the scan has a single caller", "the entry scan is called from one site, with one list", len(calls) == 1, where, sortedKeys(calls)...)
+	if len(calls) != 1 {
+		return
+	}
+	caller := rootOfInst(scan.Parent)
+	if caller == nil || caller.Fn == nil {
+		c.undecided("O-C10.6", "entries scanned", "cannot identify the caller of "+scan.Name, where)
+		return
+	}
+	bpg := c.pgOfNI(caller.Name, scan.Name)
+	if bpg == nil {
+		return
+	}
+	// the list variable handed to the scan
+	var L *Var
+	var callNodes []*Node
+	isScanCall := LP{Desc: "call of the scan", F: func(l Label) bool {
+		return l.Kind == "call" && l.T != nil && l.T.Op == "call" && l.T.Name == scan.Name
+	}}
+	for n := range distinctEdgeNodes(bpg, isScanCall) {
+		callNodes = append(callNodes, n)
+		for _, ct := range n.Calls {
+			if ct.Op == "call" && ct.Name == scan.Name && idx < len(ct.Args) && ct.Args[idx].Op == "var" {
+				L = ct.Args[idx].V
+			}
+		}
+	}
+	if L == nil || len(callNodes) != 1 {
+		c.undecided("O-C10.6", "entries scanned", fmt.Sprintf("the caller %s does not hand a local list variable to %s (%d call nodes)", caller.Name, scan.Name, len(callNodes)), c.P.pos(bpg.G.Root.Decl.Pos()))
+		return
+	}
+	var base, delta string
+	for _, s := range bpg.States {
+		for _, e := range s.Out {
+			for _, l := range e.Labels {
+				if l.Kind == "rangenext" {
+					if strings.HasSuffix(l.Key, ".BaseCRL.RevokedCertificateEntries") {
+						base = l.Key
+					}
+					if strings.HasSuffix(l.Key, ".DeltaCRL.RevokedCertificateEntries") {
+						delta = l.Key
+					}
+				}
+			}
+		}
+	}
+	bwhere := c.P.pos(bpg.G.Root.Decl.Pos())
+	c.add("O-C10.6", "entry list visits base and delta entries", "the caller of the scan ranges over the base CRL's and the delta CRL's entry lists", base != "" && delta != "", bwhere, "base loop: "+base, "delta loop: "+delta)
+	if base == "" || delta == "" {
+		return
+	}
+	bundle := strings.TrimSuffix(base, ".BaseCRL.RevokedCertificateEntries")
+	add := func(x string) LP {
+		return LP{Desc: "append entry of " + x, F: func(l Label) bool {
+			if l.Kind != "assign" || l.T == nil || l.T.V != L || l.T2 == nil {
+				return false
+			}
+			k := l.T2.Key()
+			return k == "append(self, &re("+x+"))" || k == "append(self, re("+x+"))"
+		}}
+	}
+	// every write of the list is the empty start or one of the two appends
+	var foreign []string
+	for _, s := range bpg.States {
+		for _, e := range s.Out {
+			for _, l := range e.Labels {
+				switch {
+				case l.Kind == "assign" && l.T != nil && l.T.V == L:
+					if add(base).F(l) || add(delta).F(l) || emptyListTerm(l.T2) {
+						continue
+					}
+					foreign = append(foreign, c.P.pos(l.Node.Pos)+": "+l.String())
+				case (l.Kind == "store" || l.Kind == "lstore") && l.Node != nil && l.Node.Target != nil:
+					if r, _ := splitPath(l.Node.Target); r.Op == "index" && r.Args[0].Op == "var" && r.Args[0].V == L {
+						foreign = append(foreign, c.P.pos(l.Node.Pos)+": "+l.String())
+					}
+				}
+			}
+		}
+	}
+	c.add("O-C10.6", "entry list holds only CRL entries", "the list handed to the scan starts empty and is only ever extended by an entry of the base or of the delta CRL", len(foreign) == 0, bwhere, foreign...)
+	c.perIteration(bpg, "O-C10.6", "every base entry is listed", "each base entry is appended to the list handed to the scan", base, add(base))
+	c.perIteration(bpg, "O-C10.6", "every delta entry is listed", "each delta entry is appended to the list handed to the scan", delta, add(delta))
+	c.mustPass(bpg, "O-C10.6", "base entries before delta entries", "the first delta entry", edgeTargets(bpg, RangeNext(delta)), RangeDone(base))
+	scanCalls := edgeTargets(bpg, isScanCall)
+	c.mustPass(bpg, "O-C10.6", "scan starts only after the base entries were listed", "the call of the scan", scanCalls, RangeDone(base))
+	c.mustPass(bpg, "O-C10.6", "scan starts only after the delta entries were listed", "the call of the scan", scanCalls, AnyOf(A("+IsNil("+bundle+".DeltaCRL)"), RangeDone(delta)))
+	c.floor("entry list append sites", 2, len(distinctEdgeNodes(bpg, add(base)))+len(distinctEdgeNodes(bpg, add(delta))))
+}
+
+// emptyListTerm: nil, an empty composite literal or make with length 0.
+func emptyListTerm(t *Term) bool {
+	if t == nil {
+		return false
+	}
+	if t.Key() == "nil" || t == tZero {
+		return true
+	}
+	if t.Op == "list" && len(t.Args) == 0 {
+		return true
+	}
+	if t.Op == "call" && t.Name == "make" && len(t.Args) >= 2 {
+		if v, ok := intConst(t.Args[1]); ok && v == 0 {
+			return true
+		}
+	}
+	return false
 }
